@@ -420,3 +420,250 @@ Section PEInvariants.
       + intros f Hin v vn _ _. split; [exact Logic.I|exact (proj2 (Hf f Hin v vn))].
   Qed.
 End PEInvariants.
+
+(** * Round 2: the named hypotheses derived from more primitive facts
+    (1) [pe_H_inv0_div_rows] from "the table at total wavenumber 0 is a right inverse of the assembled matrix";
+    (2) [pe_H_p_support] from "basis.p is the table built by the Legendre recurrence" (Thm/Legendre.v, Thm/SymmetryLegendre.v);
+    (3) [pe_H_deriv_mask] from "the recurrence weight a vanishes at l = |m|" (reference layout);
+    (4) leapfrog: global means along two-snapshot trajectories. *)
+From Dino Require Import Gen.Legendre Model.Legendre Model.Symmetry Thm.Legendre Thm.Symmetry Thm.SymmetryLegendre.
+
+Section PEDerived.
+  Context {F : Type} {o : Ops F} {Fc : FieldC o}.
+  Add Field FFif2 : (field_c : FieldTh o).
+  Variable g : @HGrid F.
+  Local Notation M := (hM g).
+  Local Notation R := (hR g).
+  Local Notation L := (hL g).
+  Local Notation J := (hJ g).
+
+  (** ** (1) the inverse table *)
+  Definition pe_H_inv0_right_inverse (c : @PEcfg F) (invt : F -> nat -> @Mat F) : Prop :=
+    forall eta i j, (i < 2 * cK c + 1)%nat -> (j < 2 * cK c + 1)%nat ->
+      matmul (2 * cK c + 1) (implicit_matrix c eta (Deriv.lap_eig L (hr g) 0%nat)) (invt eta 0%nat) i j = eye i j.
+
+  (** at eigenvalue 0 the divergence rows of the assembled matrix are unit rows: first block row [I 0 0] *)
+  Lemma pe_matrix_div_row_l0 (c : @PEcfg F) (eta lam : F) i k :
+    lam = 0 -> (i < cK c)%nat -> implicit_matrix c eta lam i k = delta i k.
+  Proof.
+    intros -> Hi. unfold implicit_matrix. cbv zeta.
+    destruct (Nat.ltb_spec i (cK c)) as [_|H]; [|lia].
+    destruct (Nat.ltb_spec k (cK c)) as [Hk|Hk]; [reflexivity|].
+    unfold delta. destruct (Nat.eqb_spec i k) as [E|_]; [lia|].
+    destruct (Nat.ltb_spec k (2 * cK c)); ring.
+  Qed.
+
+  Theorem pe_right_inverse_div_rows (c : @PEcfg F) (invt : F -> nat -> @Mat F) :
+    hr g <> 0 -> (2 <= L)%nat -> pe_H_inv0_right_inverse c invt -> pe_H_inv0_div_rows c invt.
+  Proof.
+    intros Hr HL Hri eta i j Hi Hj.
+    pose proof (Hri eta i j ltac:(lia) Hj) as E. unfold matmul in E.
+    rewrite (sumn_ext (2 * cK c + 1) _ (fun k => delta i k * invt eta 0%nat k j)) in E.
+    - rewrite sumn_delta_l in E by lia. exact E.
+    - intros k _. rewrite (pe_matrix_div_row_l0 c eta _ i k); [reflexivity| |exact Hi].
+      exact (lap_eig_0 L 1 L (hr g) Hr HL (le_n L) Nat.lt_0_1).
+  Qed.
+
+  (** an explicit right inverse for one level (used for the non-vacuity example): [[1 0 0] [-eta H 1 0] [-eta th 0 1]] *)
+  Definition pe_inv0_one_level (c : @PEcfg F) (eta : F) : @Mat F :=
+    fun i j => match i, j with
+               | 0%nat, 0%nat => 1 | 1%nat, 1%nat => 1 | 2%nat, 2%nat => 1
+               | 1%nat, 0%nat => - (eta * temp_weights c 0%nat 0%nat)
+               | 2%nat, 0%nat => - (eta * thickness (cb c) 0%nat)
+               | _, _ => 0
+               end.
+  Lemma pe_inv0_one_level_right_inverse (c : @PEcfg F) (eta lam : F) i j :
+    cK c = 1%nat -> lam = 0 -> (i < 3)%nat -> (j < 3)%nat ->
+    matmul 3 (implicit_matrix c eta lam) (pe_inv0_one_level c eta) i j = eye i j.
+  Proof.
+    intros HK -> Hi Hj. unfold matmul, implicit_matrix. cbv zeta. rewrite HK.
+    destruct i as [|[|[|i]]]; [| | |lia]; (destruct j as [|[|[|j]]]; [| | |lia]);
+      cbn [sumn pe_inv0_one_level Nat.ltb Nat.leb Nat.mul Nat.add Nat.sub eye delta Nat.eqb]; ring.
+  Qed.
+
+  (** ** (2) the support of basis.p from the recurrence.  [pe_p_is_evaluate]: basis.p[a] is the row |m(a)| of
+      legendre.evaluate (the table the code builds: C01 / C10 compare it with the implementation's basis.p) *)
+  Definition pe_p_is_evaluate (sq : F -> F) (x y : nat -> F) : Prop :=
+    forall a j l, (a < R)%nat -> (j < J)%nat -> (l < L)%nat ->
+                  hp g a j l = leg_basis_p false sq J x y M L a j l.
+
+  Lemma pe_mask_false a l : (l < L)%nat -> (Deriv.mask false M L a l = false <-> (l < dref_j a)%nat).
+  Proof.
+    intros Hl. unfold Deriv.mask. rewrite (proj1 (dlon_index_is_wavenumber M a)), (laxis_lt L l Hl).
+    apply Nat.leb_gt.
+  Qed.
+
+  Theorem pe_H_p_support_from_recurrence (sq : F -> F) (x y : nat -> F) :
+    pe_p_is_evaluate sq x y -> pe_H_p_support g.
+  Proof.
+    intros Hp i a j l _ Ha Hj Hl Hm. rewrite (Hp a j l Ha Hj Hl).
+    rewrite (leg_basis_p_support sq J x y false M L a j l); [ring|].
+    left. unfold sy_wav. now apply pe_mask_false.
+  Qed.
+
+  (** ** (3) div_cos_lat / curl_cos_lat keep the mask, from the recurrence weight a = 0 at l = |m| *)
+  Definition pe_H_a_diag : Prop :=
+    forall a l, (a < R)%nat -> (l < L)%nat -> l = dref_j a -> ha g a l = 0.
+
+  Lemma pe_zero_div (r : F) : 0 / r = 0.
+  Proof. rewrite (Fdiv_def field_c). ring. Qed.
+
+  Lemma pe_dlon_masked (x : nat -> nat -> F) a l :
+    pe_masked g x -> (a < R)%nat -> (l < L)%nat -> (l < dref_j a)%nat -> dlon_ref R x a l = 0.
+  Proof.
+    intros Hx Ha Hl Hm. rewrite dlon_ref_unfold by assumption. unfold dref_j in Hm.
+    destruct (Nat.eqb_spec (a mod 2) 0) as [He|Ho]; cbn [negb].
+    - destruct (Nat.eqb_spec a 0) as [E0|N0]; [ring|].
+      rewrite (Hx (a - 1)%nat l); [ring|lia|exact Hl|]. apply pe_mask_false; [exact Hl|]. unfold dref_j. lia.
+    - destruct (Nat.ltb_spec (S a) R) as [H1|H1]; [|ring].
+      rewrite (Hx (S a) l); [ring|exact H1|exact Hl|]. apply pe_mask_false; [exact Hl|]. unfold dref_j. lia.
+  Qed.
+
+  Lemma pe_D2_masked (y : nat -> nat -> F) a l :
+    pe_H_a_diag -> pe_masked g y -> (a < R)%nat -> (l < L)%nat -> (l < dref_j a)%nat ->
+    D2 L L (ha g) (hb g) y a l = 0.
+  Proof.
+    intros Hd Hy Ha Hl Hm. rewrite D2_entries by assumption. unfold tri. cbv beta.
+    assert (B : l <> 0%nat -> y a (l - 1)%nat = 0).
+    { intros N0. apply Hy; [exact Ha|lia|]. apply pe_mask_false; lia. }
+    assert (A : (S l < L)%nat -> ha g a (S l) = 0 \/ y a (S l) = 0).
+    { intros H1. destruct (Nat.eq_dec (S l) (dref_j a)) as [E|E].
+      - left. exact (Hd a (S l) Ha H1 E).
+      - right. apply Hy; [exact Ha|exact H1|]. apply pe_mask_false; lia. }
+    destruct (Nat.ltb_spec (S l) L) as [H1|H1]; destruct (Nat.eqb_spec l 0) as [E0|N0].
+    - destruct (A H1) as [Z|Z]; rewrite Z; ring.
+    - rewrite (B N0). destruct (A H1) as [Z|Z]; rewrite Z; ring.
+    - ring.
+    - rewrite (B N0). ring.
+  Qed.
+
+  Theorem pe_H_deriv_mask_from_weights : pe_H_a_diag -> pe_H_deriv_mask g.
+  Proof.
+    intros Hd x y Hx Hy. split; intros a l Ha Hl Hm; apply (pe_mask_false a l Hl) in Hm.
+    - unfold divm, div_cos_lat, clip_if, d_dlon. cbn [fst snd].
+      rewrite (pe_dlon_masked x a l Hx Ha Hl Hm), (pe_D2_masked y a l Hd Hy Ha Hl Hm).
+      replace (0 + 0) with (0 : F) by ring. apply pe_zero_div.
+    - unfold curlm, curl_cos_lat, clip_if, d_dlon. cbn [fst snd].
+      rewrite (pe_dlon_masked y a l Hy Ha Hl Hm), (pe_D2_masked x a l Hd Hx Ha Hl Hm).
+      replace (0 - 0) with (0 : F) by ring. apply pe_zero_div.
+  Qed.
+
+  (** ** corollaries: the pattern theorems resting on the recurrence table, the weight property and the orography only *)
+  Variable c : @PEcfg F.
+  Variable grav : F.
+  Variable orog : nat -> nat -> F.
+  Variable invt : F -> nat -> @Mat F.
+  Local Notation E := (explicit_terms_full g c grav orog).
+  Local Notation Gi := (fun eta => implicit_inverse_full g c eta (invt eta)).
+
+  Theorem pe_explicit_into_Supp_from_recurrence (sq : F -> F) (x y : nat -> F) (s : @State F) :
+    pe_p_is_evaluate sq x y -> pe_H_a_diag -> pe_masked g orog -> StSupp g (E s).
+  Proof.
+    intros Hp Hd Ho. apply pe_explicit_into_Supp; [now apply (pe_H_p_support_from_recurrence sq x y)| |exact Ho].
+    now apply pe_H_deriv_mask_from_weights.
+  Qed.
+
+  Theorem primeq_trajectory_in_subspace_from_recurrence (sq : F -> F) (x y : nat -> F)
+          (t : stepterm F) (filters : list (@State F -> @State F -> @State F)) :
+    pe_p_is_evaluate sq x y -> pe_H_a_diag -> pe_masked g orog ->
+    (forall f, In f filters -> forall u un, StSupp g u -> StSupp g un -> StSupp g (f u un)) ->
+    forall k u, StSupp g u ->
+      StSupp g (iter k (with_filters (step_of (vo := StateSp) E (implicit_terms_full g c) Gi t) filters) u).
+  Proof.
+    intros Hp Hd Ho. apply primeq_trajectory_in_subspace; [now apply (pe_H_p_support_from_recurrence sq x y)| |exact Ho].
+    now apply pe_H_deriv_mask_from_weights.
+  Qed.
+
+  Theorem primeq_leapfrog_trajectory_in_subspace_from_recurrence (sq : F -> F) (x y : nat -> F) (t : stepterm F)
+          (filters : list (@State F * @State F -> @State F * @State F -> @State F * @State F)) :
+    pe_p_is_evaluate sq x y -> pe_H_a_diag -> pe_masked g orog ->
+    (forall f, In f filters -> forall u un, S2 (StSupp g) u -> S2 (StSupp g) un -> S2 (StSupp g) (f u un)) ->
+    forall k u, S2 (StSupp g) u ->
+      S2 (StSupp g) (iter k (with_filters (lf_step_of (vo := StateSp) E (implicit_terms_full g c) Gi t) filters) u).
+  Proof.
+    intros Hp Hd Ho. apply primeq_leapfrog_trajectory_in_subspace; [now apply (pe_H_p_support_from_recurrence sq x y)| |exact Ho].
+    now apply pe_H_deriv_mask_from_weights.
+  Qed.
+
+  (** the divergence half of primeq_means_conserved resting on the inverse property only *)
+  Theorem primeq_means_conserved_from_inverse (t : stepterm F) (cs : F) (filters : list (@State F -> @State F -> @State F)) lev :
+    hr g <> 0 -> (2 <= L)%nat -> (0 < R)%nat ->
+    consistent t cs ->
+    (forall f, In f filters -> forall u un, P_vort lev (f u un) = P_vort lev un /\ P_div lev (f u un) = P_div lev un) ->
+    pe_H_inv0_right_inverse c invt -> (lev < cK c)%nat ->
+    forall k u,
+      P_vort lev (iter k (with_filters (step_of (vo := StateSp) E (implicit_terms_full g c) Gi t) filters) u) = P_vort lev u /\
+      P_div lev (iter k (with_filters (step_of (vo := StateSp) E (implicit_terms_full g c) Gi t) filters) u) = P_div lev u.
+  Proof.
+    intros Hr HL HR0 Hc Hf Hri Hlev k u.
+    destruct (primeq_means_conserved g c grav orog invt t cs filters lev Hr HL HR0 Hc Hf k u) as [A B].
+    split; [exact A|]. apply B; [|exact Hlev]. now apply pe_right_inverse_div_rows.
+  Qed.
+End PEDerived.
+
+(** ** (4) leapfrog: a component that sees F = 0, G = 0, G_inv = id and has the same value m on both snapshots keeps the
+    value m on both snapshots along every trajectory of semi_implicit_leapfrog (any dt, alpha) with filters that keep it *)
+Section LFMean.
+  Context {F : Type} {o : Ops F} {Fc : FieldC o}.
+  Add Field FFif3 : (field_c : FieldTh o).
+  Context {V : Type} {vo : VSp F V} (Fx G : V -> V) (Ginv : F -> V -> V) (P : V -> F).
+  Hypothesis P_zero : P vz = 0.
+  Hypothesis P_add : forall x y, P (va x y) = P x + P y.
+  Hypothesis P_scale : forall a x, P (vs a x) = a * P x.
+  Hypothesis P_F : forall x, P (Fx x) = 0.
+  Hypothesis P_G : forall x, P (G x) = 0.
+  Hypothesis P_Ginv : forall eta x, P (Ginv eta x) = P x.
+
+  Definition Pm (m : F) (pc : V * V) : Prop := P (fst pc) = m /\ P (snd pc) = m.
+
+  Theorem lf_mean_trajectory (dt alpha m : F) (filters : list (V * V -> V * V -> V * V)) :
+    (forall f, In f filters -> forall u un, Pm m u -> Pm m un -> Pm m (f u un)) ->
+    forall k u, Pm m u -> Pm m (iter k (with_filters (lf_step_of Fx G Ginv (leapfrog_term dt alpha)) filters) u).
+  Proof.
+    intros Hf. apply iter_preserves. apply with_filters_preserves; [|exact Hf].
+    intros pc [Hp Hc]. split; [exact Hc|].
+    rewrite (lf_step_component Fx G Ginv (fun _ => True) Logic.I (fun _ _ _ _ => Logic.I) (fun _ _ _ => Logic.I)
+               (fun _ _ => Logic.I) (fun _ _ => Logic.I) (fun _ _ _ => Logic.I) P 0 P_zero P_add P_scale
+               (fun x _ => P_F x) (fun x _ => P_G x) (fun eta x _ => P_Ginv eta x) (leapfrog_term dt alpha) pc
+               (conj Logic.I Logic.I)).
+    rewrite leapfrog_scalar. cbn [env2]. rewrite Hp. ring.
+  Qed.
+End LFMean.
+
+Section PELeapfrogMeans.
+  Context {F : Type} {o : Ops F} {Fc : FieldC o}.
+  Add Field FFif4 : (field_c : FieldTh o).
+  Variables (g : @HGrid F) (c : @PEcfg F) (grav : F) (orog : nat -> nat -> F) (invt : F -> nat -> @Mat F).
+  Local Notation E := (explicit_terms_full g c grav orog).
+  Local Notation Gi := (fun eta => implicit_inverse_full g c eta (invt eta)).
+  Local Notation lfstep dt alpha := (lf_step_of (vo := StateSp) E (implicit_terms_full g c) Gi (leapfrog_term dt alpha)).
+
+  Theorem primeq_leapfrog_means_conserved (dt alpha : F) lev (mv md : F)
+          (filters : list (@State F * @State F -> @State F * @State F -> @State F * @State F)) :
+    hr g <> 0 -> (2 <= hL g)%nat -> (0 < hR g)%nat ->
+    (forall k u, (forall f, In f filters -> forall v vn, Pm (P_vort lev) mv v -> Pm (P_vort lev) mv vn -> Pm (P_vort lev) mv (f v vn)) ->
+                 Pm (P_vort lev) mv u -> Pm (P_vort lev) mv (iter k (with_filters (lfstep dt alpha) filters) u)) /\
+    (pe_H_inv0_right_inverse g c invt -> (lev < cK c)%nat ->
+     forall k u, (forall f, In f filters -> forall v vn, Pm (P_div lev) md v -> Pm (P_div lev) md vn -> Pm (P_div lev) md (f v vn)) ->
+                 Pm (P_div lev) md u -> Pm (P_div lev) md (iter k (with_filters (lfstep dt alpha) filters) u)).
+  Proof.
+    intros Hr HL HR0. split.
+    - intros k u Hf Hu.
+      apply (lf_mean_trajectory (vo := StateSp) E (implicit_terms_full g c) Gi (P_vort lev)); try assumption.
+      + reflexivity.
+      + intros x y. reflexivity.
+      + intros a x. reflexivity.
+      + intros x. exact (proj1 (pe_explicit_means_vanish g c grav orog x lev Hr HL HR0)).
+      + intros x. reflexivity.
+      + intros eta x. reflexivity.
+    - intros Hri Hlev k u Hf Hu.
+      pose proof (pe_right_inverse_div_rows g c invt Hr HL Hri) as Hrows.
+      apply (lf_mean_trajectory (vo := StateSp) E (implicit_terms_full g c) Gi (P_div lev)); try assumption.
+      + reflexivity.
+      + intros x y. reflexivity.
+      + intros a x. reflexivity.
+      + intros x. exact (proj2 (pe_explicit_means_vanish g c grav orog x lev Hr HL HR0)).
+      + intros x. exact (proj2 (pe_implicit_means_vanish g c x lev Hr)).
+      + intros eta x. apply pe_inverse_div_mean; assumption.
+  Qed.
+End PELeapfrogMeans.
